@@ -17,7 +17,7 @@ type c16 struct{ base }
 
 func init() {
 	runner.Register(&c16{base{id: "C16", level: "exploration",
-		rule: "R1 exhaustive: all 573 reserved words x 3 letter cases x every bare-name position {comparison left/right, function argument, BETWEEN subject and bound, IN subject and member, head of a dotted / indexed path, SET target, SET source, REMOVE / ADD / DELETE target, if_not_exists / list_append argument} must be rejected; converse: the same positions with '#alias -> reserved word' and with 200 non-reserved names must be accepted. R2/R3 exhaustive: every relation between supplied and used placeholder sets over 4 value names and 4 attribute names, two pools each (letters :a :ab :abc :b / #n #na #nab #m, and digit-first / underscore / mixed case :0 :01 :_ :A1 / #0 #01 #_ #A1; two names in each pool are prefixes of another): 16x16 per kind and pool, on Scan filter, Query, PutItem / DeleteItem condition and UpdateItem, both adapters: accepted iff supplied = used. R4 malformed placeholder keys. R5 key conditions: the legal shapes must be accepted, the illegal ones rejected. R6 batch: neither/both of put and delete, sizes 24/25/26/50 over 1-3 tables. non-trivial = the request breaks exactly one rule or none; distinct by (rule, position/configuration). Reserved words as the NAME of the table's own key attribute (hash-only and hash+range tables): Put / Delete / Update guarded by attribute_exists(word) / attribute_not_exists(word) written out must be refused. Write requests with both members of which one is allocated but empty.",
+		rule: "R1 exhaustive: all 573 reserved words x 3 letter cases x every bare-name position {comparison left/right, function argument, BETWEEN subject and bound, IN subject and member, head of a dotted / indexed path, SET target, SET source, REMOVE / ADD / DELETE target, if_not_exists / list_append argument} must be rejected; converse: the same positions with '#alias -> reserved word' and with 200 non-reserved names must be accepted. R2/R3 exhaustive: every relation between supplied and used placeholder sets over 4 value names and 4 attribute names, two pools each (letters :a :ab :abc :b / #n #na #nab #m, and digit-first / underscore / mixed case :0 :01 :_ :A1 / #0 #01 #_ #A1; two names in each pool are prefixes of another): 16x16 per kind and pool, on Scan filter, Query, PutItem / DeleteItem condition and UpdateItem, both adapters: accepted iff supplied = used. R4 malformed placeholder keys. R5 key conditions: the legal shapes must be accepted, the illegal ones rejected. R6 batch: neither/both of put and delete, sizes 24/25/26/50 over 1-3 tables. non-trivial = the request breaks exactly one rule or none; distinct by (rule, position/configuration). Reserved words as the NAME of the table's own key attribute (hash-only and hash+range tables): Put / Delete / Update guarded by attribute_exists(word) / attribute_not_exists(word) written out must be refused. Write requests with both members of which one is allocated but empty. UpdateItem without UpdateExpression carrying a placeholder defect (unused / undefined name, unused value, names or values without any expression, malformed keys, a reserved word) is refused.",
 		assumptions: append([]string{"the frozen 573-word reserved list (refmodel/reserved.go) equals DynamoDB's"}, commonAssumptions...)}})
 }
 
